@@ -409,5 +409,8 @@ def run(repo, check):
     for f in r9.findings:
         f.rule = 'C07.R9'
     check.add(r9)
+    from sa.rules.common import share
+    share(check, repo, c09.rule_registered, 'C07.R10', 'every value node is addressable by the flat index a bitmap link designates (shared with C09.R7)', args=('C07.R10',))
+    share(check, repo, c06.rule_alias, 'C07.R11', 'link records: one per subset when uncompressed, one shared record when compressed (shared with C05.R3 / C06.R5)', args=('C07.R11',))
     check.assumptions = ['each primitive appends exactly one flat entry (C01.R3), so the k-th emission is flat index k',
                          'which element a given bitmap designates in a given message is a runtime fact; the rules decide the mechanism']
